@@ -157,4 +157,13 @@ def r17_4(ctx):
     return out
 
 
-RULES = [r17_1, r17_2, r17_3, r17_4]
+def r17_5(ctx):
+    from rules import C04
+    o = C04.r04_2(ctx)
+    o.rule = "R17.5"
+    o.text = ("the sign of float(curve) is the sign of IntegrateJordan.area, which is the sum over *every* segment, "
+              "straight or curved, of the same per-segment integral (same analysis as R04.2)")
+    return o
+
+
+RULES = [r17_1, r17_2, r17_3, r17_4, r17_5]
